@@ -171,6 +171,50 @@ PROPS = {
         ],
         "assumptions": ASSUME_COMMON,
     },
+    "C15": {
+        "level": "exploration",
+        "design_ref": "§6 C15",
+        "level_text": L_EXPL + "; 3.6*10^4 (quick) / 7.3*10^4 (thorough) complete scans, first page to last token, through live paginated endpoints; exhaustive in N for 0..300 x 11 limits x 10 orders",
+        "level_note": "the collection is a pure function of N and the model sorts it independently of the handler's BTreeMap ranges; sizes reach 25 000; limits cover absent and 1..2^32-1, including 9999/10000/10001 around the clamp; the endpoints are the examples' code and the parts under test are PaginationParams, page_limit, ResultsPage::new and the token round trip",
+        "technique": "runtime monitoring: pagination scan reference model (order, exactly-once, page <= min(limit, 10000)/100, token iff non-empty, <= ceil(N/limit)+1 requests) over a raw HTTP client, with conservation check pages fetched = pages served",
+        "engines": [
+            {"name": "c15-scan", "bin": "vmon_wsp", "package": "wsp"},
+        ],
+        "assumptions": ASSUME_COMMON,
+    },
+    "C16": {
+        "level": "exploration",
+        "design_ref": "§6 C16",
+        "level_text": L_EXPL + "; history monitor over generated disconnect schedules: 480 (quick) / 30 000 (thorough) scenarios, both task modes, victims leaving by close or RST at five phases; ~200 distinct orderings of (ENTER, steps, DISCONNECT, DONE/DROP) per (mode, phase, style), up to 100 handlers in flight",
+        "level_note": "schedules are those the stress runs produced (tokio workers 1/2/4/16, optional CPU hogs, 1-128 concurrent raw-socket clients); cancellation is decided as bounded progress: gate kept shut, 10 s watchdog, then the gate is opened and only a subsequent H_DONE is a violation; HTTP/1.1 requests pipelined behind a panicking one are counted, not judged; h2 is not exercised",
+        "technique": "runtime history monitor: append-only seq-ordered event log written by gated / stepping / 8 MB-response / panicking harness handlers and raw-socket clients on real servers; offline oracle for exactly-once entry, exactly-one ending, no progress after cancel, detached completion, delivery to clients that stay, panic isolation",
+        "engines": [
+            {"name": "c16-disconnect", "bin": "vmon_hist", "package": "hist"},
+        ],
+        "assumptions": ASSUME_COMMON,
+    },
+    "C17": {
+        "level": "exploration",
+        "design_ref": "§6 C17",
+        "level_text": L_EXPL + "; history monitor over 640 (quick) / 10 000 (thorough) shutdown scenarios: close() called settled or racing against started handlers, idle and half-sent connections, departed clients of detached handlers, late arrivals, a panicking handler and 0-6 extra waiters; 43-69 distinct orderings of (ENTER, CLOSE_CALL, GATE, DISCONNECT, DONE/DROP, CLOSE_RET) per population",
+        "level_note": "liveness is checked as bounded progress: a 30 s watchdog at logical quiescence, then three re-runs alone, only 3/3 hangs is a violation; the port clause counts only if the old instance answers or a LISTEN socket on the old port still belongs to this process while no newer harness server bound it; waiters are created before close() (it consumes the server)",
+        "technique": "runtime history monitor: server.close() and wait_for_shutdown() driven on the server's own runtime with call/return events logged; oracle over seq order for response completeness, close-after-every-handler-end, equal waiter results, refused port, deadlock by the re-run rule",
+        "engines": [
+            {"name": "c17-shutdown", "bin": "vmon_hist", "package": "hist"},
+        ],
+        "assumptions": ASSUME_COMMON,
+    },
+    "C20": {
+        "level": "exploration",
+        "design_ref": "§6 C20",
+        "level_text": L_EXPL + "; ~1.9*10^4 (quick) / 2.4*10^5 (thorough) real handshakes against live channel endpoints; the 101, the accept digest (own SHA-1 and base64), the handler entry and every post-upgrade byte in both directions are checked",
+        "level_note": "8x8 legal list spellings plus HTAB and multi-line, 15 missing/wrong subsets, 6 key classes, 13 flows, 7 payload size classes, up to 2 560 simultaneous upgrades; wall-clock never decides: a stalled stream is resolved by half-closing and judging the end of stream, otherwise inconclusive; HTTP/1.0, duplicate Version/Key lines and SP-only list separators are deliberately unclassed",
+        "technique": "runtime monitoring: RFC 6455 / RFC 9110 list-syntax reference model with independent SHA-1/base64 plus history monitor (CH_ENTER/CH_EOF event log) over a raw-socket client and real servers",
+        "engines": [
+            {"name": "c20-handshake", "bin": "vmon_wsp", "package": "wsp"},
+        ],
+        "assumptions": ASSUME_COMMON,
+    },
     "C06": {
         "level": "exploration",
         "design_ref": "§6 C06",
